@@ -4,3 +4,4 @@ import Norad.Props.C03
 import Norad.Props.C18
 import Norad.Props.C20
 import Norad.Props.C07
+import Norad.Props.C07Containers
